@@ -501,3 +501,13 @@ M('C03', 'check-parameters-after-flag', T, "        self.check_parameters()\n\n 
 M('C03', 'new-param-zero', T, "np.concatenate((self.params_values, np.array([np.nan])))", "np.concatenate((self.params_values, np.array([0.0])))", 'fire', 'R3.5-initialisation-check/_add_param')
 M('C03', 'tuple-order', T, "        self.reaction_list.append((propensity_object, delay_object, reaction_update_dict, delay_reaction_update_dict))", "        self.reaction_list.append((propensity_object, delay_object, delay_reaction_update_dict, reaction_update_dict))", 'fire', 'R3.2-tuple-positions/_add_reaction')
 M('C03', 'silent-derivative-rewrite', S, "                dxdt[s] += prop[ self.S_indices[s][j]  ] * self.S_values[s][j]\n\n\n    def py_calculate", "                dxdt[s] = dxdt[s] + self.S_values[s][j] * prop[self.S_indices[s][j]]\n\n\n    def py_calculate", 'silent')
+
+# ------------------------------------------------------------------ C04
+M('C04', 'rhs-without-rules', S, "    (<CSimInterface>global_simulator).apply_repeated_rules(<double*> state.data,t, rule_step)\n", "", 'fire', 'R4.1-rhs')
+M('C04', 'rhs-time-frozen', S, "<double*> global_derivative_buffer.data, t)\n    return global_derivative_buffer\n\ndef rhs_ivp", "<double*> global_derivative_buffer.data, 0.0)\n    return global_derivative_buffer\n\ndef rhs_ivp", 'fire', 'R4.1-rhs')
+M('C04', 'x0-not-initial-state', S, "        cdef np.ndarray x0 = sim.get_initial_state().copy()\n", "        cdef np.ndarray x0 = np.zeros(sim.get_initial_state().shape[0])\n", 'fire', 'R4.3-odeint-call')
+M('C04', 'odeint-other-grid', S, "odeint(rhs_global, x0, timepoints,atol=self.atol", "odeint(rhs_global, x0, timepoints[::-1],atol=self.atol", 'fire', 'R4.3-odeint-call')
+M('C04', 'failed-returns-partial', S, "            return SSAResult(timepoints,results * np.nan)", "            return SSAResult(timepoints,results)", 'fire', 'R4.3-odeint-call')
+M('C04', 'global-pointer-stale', S, "        global_simulator = <void*> sim\n", "", 'fire', 'R4.2-globals')
+M('C04', 'buffer-wrong-size', S, "        global_derivative_buffer = np.empty(num_species,)", "        global_derivative_buffer = np.empty(num_reactions,)", 'fire', 'R4.2-globals')
+M('C04', 'silent-tolerances', S, "        self.atol = 1.49012e-8\n        self.rtol = 1.49012e-8", "        self.atol = 1.0e-8\n        self.rtol = 1.0e-8", 'silent')
